@@ -22,12 +22,28 @@ META = {
  "C08": {"technique": "Ranger.tla as reference ordered map; TLC trace validation of every real process_message step and of a primitive range sweep (SessionTrace.tla / ReplicaTrace.tla, Prop=C08)",
          "text": "The specification's Ranger module is the plain-ordered-map reference (range scans in all three orderings, first key, fingerprints, prefix lookup/removal, pivots). Every process_message call of real sessions on the memory and the file-backed redb store, plus hand-built probe messages over arbitrary ranges (x<y, wrap-around, x=y, foreign endpoints) under 6 configs, must produce exactly the reply and post-state the reference prescribes; equality of the two backends follows from both equalling the reference.",
          "note": TB + " Fingerprints compared up to an injectivity map."},
+ "C05": {"technique": "Query.tla evaluated by TLC as the reference for every real query answer (QueryTrace.tla) + TLC model checking of the two physical access paths (QueryIndex.tla)",
+         "text": "TLC checks over every reachable (records, by-key index with stale ids) that the index path and the records-scan path both equal the Query.tla definition (two sensitivity configs must fail). Real store states built by pruning histories are then queried with the full product of the 8 query dimensions and every point lookup; TLC evaluates Query!ResultOk on each logged answer (sequence equality; ties and the documented/implemented filter-order ambiguity of latest-per-key are left free).",
+         "note": TB + " Query sample beyond the first states is seeded, not exhaustive."},
+ "C07": {"technique": "TLC model checking of Docs.tla (CapMonotone, OthersUntouched) + TLC trace validation of multi-document histories (DocsTrace.tla, Prop=C07)",
+         "text": "TLC explores all short histories of capability imports, open/close, local/remote writes, removal and reopen over byte-neighbour documents: a write capability is never lost, imports touch only their document (sensitivity: downgrade on re-import must fail). On the real store TLC validates capability kinds, ReadOnly refusals and accepted remote entries after every step for all 7 documents.",
+         "note": TB},
+ "C15": {"technique": "TLC model checking of Docs.tla + Policy.tla as reference for matches()/filters; TLC trace validation (DocsTrace.tla Prop=C15; download flag under ReplicaTrace Prop=C12)",
+         "text": "Policies per document across set/get/removal/reopen are validated against the model's expected value (set only on existing documents, default otherwise); DownloadPolicy::matches and the Display/FromStr round trip of filters (non-UTF-8, empty, ':'-containing) are evaluated against Policy.tla by TLC for every logged call.",
+         "note": TB},
+ "C16": {"technique": "TLC model checking of Docs.tla (RemovedIsGone, OthersUntouched, NoOrphans with the namespace-range mechanism) + TLC trace validation of all observers of all documents (DocsTrace.tla, Prop=C16)",
+         "text": "TLC explores removal/re-creation interleaved with writes and settings over ids <<1,255>>, <<2,0>>, <<255,255>> with the [ns, ns+1) range mechanism (three sensitivity configs must fail). On the real store every observer of 7 neighbouring documents plus the content-hash list is compared after each step: refused while open, removed document unobservable, others unchanged, hashes = hashes of held entries.",
+         "note": TB + " Record-level byte-exact neighbours cannot be created (no secret for a chosen id); see DESIGN.md §7."},
+ "C17": {"technique": "TLC model checking of Docs.tla peer-list mechanism (all sequences <= 7 over 7 peers, cap 5) + TLC trace validation (DocsTrace.tla, Prop=C17)",
+         "text": "The oldest-first multimap mechanism of register_useful_peer is model-checked for bounded length, no duplicates and most-recent-first over all registration sequences; the real store's get_sync_peers is validated against MRU semantics after every registration incl. unknown/removed documents and reopen.",
+         "note": TB + " Assumes registrations do not share a nanosecond."},
+ "C18": {"technique": "TLC model checking of the rebuild scan in Docs.tla + TLC trace validation of real database files with derived tables deleted (DocsTrace.tla, Prop=C18)",
+         "text": "The migration scan (table order, one row per namespace/author) is model-checked to yield exactly the heads of the records (sensitivity: last-row-wins must fail). Real database files get latest-by-author-1 and/or records-by-key-1 deleted with plain redb, are reopened through Store::persistent, and heads / key-ordered queries must equal their definition over the unchanged records; plain reopen must change no observer.",
+         "note": TB},
 }
 NOT_APPLICABLE = {
- "C04": "not yet bound (in progress)", "C05": "not yet bound (in progress)",
- "C06": "not yet bound (in progress)", "C07": "not yet bound (in progress)",
+ "C04": "not yet bound (in progress)",
+ "C06": "not yet bound (in progress)",
  "C09": "not yet bound (in progress)", "C10": "not yet bound (in progress)", "C11": "not yet bound (in progress)",
  "C14": "not yet bound (in progress)",
- "C15": "not yet bound (in progress)", "C16": "not yet bound (in progress)", "C17": "not yet bound (in progress)",
- "C18": "not yet bound (in progress)",
 }
